@@ -103,6 +103,10 @@ fn run_local(case: &Case, out: &mut Out) {
   // field `unit us`: one virtual tick is a microsecond (default: a millisecond)
   vtime::set_unit_nanos(if case.has("unit") && case.field("unit")[0].atom() == "us" { 1_000 } else { 1_000_000 });
   let ctx = LCtx::default();
+  // field `mono k`: adjacent single-input operators are applied without a box in between (pipe.rs)
+  if case.has("mono") {
+    ctx.mono.store(case.field("mono")[0].nat() as u8, std::sync::atomic::Ordering::SeqCst);
+  }
   let exec = Exec::new(Queue::Local(ctx.sched.clone()));
   let log = Rc::new(RefCell::new(Vec::<Notif>::new()));
   let pipe_expr: &SExp = &case.field("pipe")[0];
@@ -200,6 +204,9 @@ fn run_threads(case: &Case, out: &mut Out) {
   // field `unit us`: one virtual tick is a microsecond (default: a millisecond)
   vtime::set_unit_nanos(if case.has("unit") && case.field("unit")[0].atom() == "us" { 1_000 } else { 1_000_000 });
   let ctx = TCtx::default();
+  if case.has("mono") {
+    ctx.mono.store(case.field("mono")[0].nat() as u8, std::sync::atomic::Ordering::SeqCst);
+  }
   let exec = Exec::new(Queue::Shared(ctx.sched.clone()));
   if case.has("locktrace") {
     locktrace::start();
